@@ -245,7 +245,11 @@ var SegmentPersisters = map[string]SegmentPersisterFunc{}
 // OpenStore returns a store instance for a directory.  An empty
 // directory results in an empty store.
 func OpenStore(dir string, options StoreOptions) (*Store, error) {
-	return openStore(dir, options)
+	s, err := openStore(dir, options)
+	if err == nil {
+		verifTrace("store.open", s)
+	}
+	return s, err
 }
 
 // Dir returns the directory for this store
